@@ -56,6 +56,7 @@ type Term struct {
 	id   int
 	name string // vars
 	ew   uint8  // effective width: bits above ew are known to be zero
+	tz   uint8  // bits below tz are known to be zero
 }
 
 type TermStore struct {
@@ -97,9 +98,69 @@ func (ts *TermStore) mk(op Op, w uint8, c uint64, args ...*Term) *Term {
 	t := &Term{op: op, w: w, c: c, id: ts.next, n: uint8(len(args))}
 	copy(t.a[:], args)
 	t.ew = effWidth(t)
+	t.tz = lowZeros(t)
 	ts.next++
 	ts.tab[k] = t
 	return t
+}
+
+// lowZeros returns a number of low bits known to be zero.
+func lowZeros(t *Term) uint8 {
+	if t.w == 0 {
+		return 0
+	}
+	mn := func(a, b uint8) uint8 {
+		if a < b {
+			return a
+		}
+		return b
+	}
+	var z uint8
+	switch t.op {
+	case OConst:
+		if t.c == 0 {
+			z = t.w
+		} else {
+			z = uint8(bits.TrailingZeros64(t.c))
+		}
+	case OShl:
+		if t.a[1].isConst() && t.a[1].c < 64 {
+			x := uint64(t.a[0].tz) + t.a[1].c
+			if x > uint64(t.w) {
+				x = uint64(t.w)
+			}
+			z = uint8(x)
+		}
+	case OZExt:
+		z = mn(t.a[0].tz, t.a[0].w)
+		if t.a[0].tz >= t.a[0].w {
+			z = t.w
+		}
+	case OAnd:
+		z = t.a[0].tz
+		if t.a[1].tz > z {
+			z = t.a[1].tz
+		}
+	case OOr, OXor, OAdd, OSub:
+		z = mn(t.a[0].tz, t.a[1].tz)
+	case OIte:
+		z = mn(t.a[1].tz, t.a[2].tz)
+	case OMul:
+		x := uint16(t.a[0].tz) + uint16(t.a[1].tz)
+		if x > uint16(t.w) {
+			x = uint16(t.w)
+		}
+		z = uint8(x)
+	case OConcat:
+		z = t.a[1].tz
+		if t.a[1].tz >= t.a[1].w {
+			z = t.a[1].w + t.a[0].tz
+		}
+	}
+	if z > t.w {
+		z = t.w
+	}
+	return z
 }
 
 func effWidth(t *Term) uint8 {
@@ -328,6 +389,11 @@ func (ts *TermStore) Bin(op Op, a, b *Term) *Term {
 			return ts.ZExt(ts.Bin(OAdd, ts.Extract(a, e-1, 0), ts.Extract(b, e-1, 0)), w)
 		}
 	}
+	// additions of terms whose possibly-set bits do not overlap are ORs (pure wiring
+	// for the bit-blaster; typical of byte/varint assembly code)
+	if op == OAdd && !a.isConst() && !b.isConst() && (a.ew <= b.tz || b.ew <= a.tz) {
+		return ts.Bin(OOr, a, b)
+	}
 	switch op {
 	case OAdd:
 		if a.isConst() && a.c == 0 {
@@ -342,6 +408,14 @@ func (ts *TermStore) Bin(op Op, a, b *Term) *Term {
 		// (x + c1) + c2
 		if b.isConst() && a.op == OAdd && a.a[1].isConst() {
 			return ts.Bin(OAdd, a.a[0], ts.Const(w, a.a[1].c+b.c))
+		}
+		// (x | c1) + c2 where x cannot overlap c1: x + (c1 + c2)
+		if b.isConst() && a.op == OOr && a.a[1].isConst() && a.a[0].ew <= a.a[1].tz {
+			return ts.Bin(OAdd, a.a[0], ts.Const(w, a.a[1].c+b.c))
+		}
+		// x + c where x cannot overlap c: x | c
+		if b.isConst() && a.ew <= b.tz {
+			return ts.Bin(OOr, a, b)
 		}
 	case OSub:
 		if b.isConst() && b.c == 0 {
@@ -379,6 +453,18 @@ func (ts *TermStore) Bin(op Op, a, b *Term) *Term {
 			if b.c == mask(w) {
 				return a
 			}
+			// all possibly-set bits of a are kept by the mask
+			if a.ew < 64 && (mask(a.ew)&^mask(a.tz))&^b.c == 0 {
+				return a
+			}
+			// (x & c1) & c2
+			if a.op == OAnd && a.a[1].isConst() {
+				return ts.Bin(OAnd, a.a[0], ts.Const(w, a.a[1].c&b.c))
+			}
+			// (x | c1) & c2 with c1 & c2 == 0  ->  x & c2
+			if a.op == OOr && a.a[1].isConst() && a.a[1].c&b.c == 0 {
+				return ts.Bin(OAnd, a.a[0], b)
+			}
 		}
 		if a == b {
 			return a
@@ -393,6 +479,25 @@ func (ts *TermStore) Bin(op Op, a, b *Term) *Term {
 			}
 			if b.c == mask(w) {
 				return b
+			}
+			// (x | c1) | c2
+			if a.op == OOr && a.a[1].isConst() {
+				return ts.Bin(OOr, a.a[0], ts.Const(w, a.a[1].c|b.c))
+			}
+			// x | c: the bits of c are forced, drop them from x
+			if a.op != OAnd || !a.a[1].isConst() || a.a[1].c&b.c != 0 {
+				m := ts.Bin(OAnd, a, ts.Const(w, ^b.c))
+				if m != a {
+					return ts.Bin(OOr, m, b)
+				}
+			}
+		} else {
+			// keep constants outermost: (x | c) | y -> (x | y) | c
+			if a.op == OOr && a.a[1].isConst() {
+				return ts.Bin(OOr, ts.Bin(OOr, a.a[0], b), a.a[1])
+			}
+			if b.op == OOr && b.a[1].isConst() {
+				return ts.Bin(OOr, ts.Bin(OOr, a, b.a[0]), b.a[1])
 			}
 		}
 		if a == b {
@@ -415,6 +520,10 @@ func (ts *TermStore) Bin(op Op, a, b *Term) *Term {
 			}
 			if b.c >= uint64(w) && op != OAShr {
 				return ts.Const(w, 0)
+			}
+			// (x | c) << k  ->  (x << k) | (c << k)
+			if op == OShl && a.op == OOr && a.a[1].isConst() {
+				return ts.Bin(OOr, ts.Bin(OShl, a.a[0], b), ts.Const(w, a.a[1].c<<b.c))
 			}
 		}
 		if a.isConst() && a.c == 0 {
@@ -661,6 +770,9 @@ func (ts *TermStore) ZExt(a *Term, w uint8) *Term {
 	}
 	if a.op == OZExt {
 		return ts.ZExt(a.a[0], w)
+	}
+	if a.op == OOr && a.a[1].isConst() {
+		return ts.Bin(OOr, ts.ZExt(a.a[0], w), ts.Const(w, a.a[1].c))
 	}
 	return ts.mk(OZExt, w, 0, a)
 }
